@@ -1,8 +1,8 @@
-CONSTANTS K = 2
+CONSTANTS K = 3
 TYS = {"Z","X"}
-PHS = {0,1,4,7}
+PHS = {0,1,4}
 ETS = {"N","H"}
-NB = 2
+NB = 1
 VARS = {}
 BB = TRUE
 SCN = 1
